@@ -14,7 +14,10 @@ SPEC = {
             "with repeated name lists, MTU, source LLA, captive portal, PREF64 0..2; lifetimes 1s..2^32-2 s, infinite, fractional) "
             "wired as cmd/corerad/main.go does and observed at the points never / dialing / up / up+fail / up-later / redial / "
             "stopped, with State read failures and address/route source failures injected. One case per (configuration, point, "
-            "{scrape, api, routes}). Non-trivial: at least one option is rendered, or a failure is injected.",
+            "{scrape, api, routes}). Last, in real time outside the bubbles (both tiers): 1500 scrapes of the production registry, 1500 API requests "
+            "and 6000 RA builds of an interface carrying every wildcard stanza run concurrently with the plugin initialisation loop "
+            "(Prepare) of another, static interface spinning back to back; everything must finish within a 3 s watchdog (a blocked "
+            "daemon is an implementation violation). Non-trivial: at least one option is rendered, or a failure is injected.",
     "nontrivial": lambda c: bool(c.get("input", {}).get("options")) or bool(c.get("input", {}).get("injected")),
     "trusted": [
         "the driver's fake plugin sources (Prepare installs fake Addrs/Routes/TimeNow instead of rtnetlink and the wall clock; Apply is the real code)",
@@ -23,7 +26,7 @@ SPEC = {
     ],
     "assumptions": [
         "the RA as built from configuration and plugins is an input of the model (Interface.RouterAdvertisement(true) evaluated by the driver at the same virtual instant); its construction is property C01",
-        "a scrape / request is atomic with respect to Prepare (interleavings inside one scrape are only exercised by the -race run)",
+        "a scrape / request is atomic with respect to Prepare in the model (interleavings inside one scrape are exercised by the real-time stress -- blocking only -- and by the -race run)",
         "only routing/gating of /metrics and /debug/pprof/ and the CoreRAD state series are modelled, not the Go runtime collectors or pprof bodies",
     ],
 }
